@@ -301,7 +301,13 @@ Definition import_string (i : imp) : string :=
    e_unique_alias = true is the current code (fixes/C19-import-alias-collision.patch: an import
    added on demand gets a name that is not bound yet), false the code before it *)
 Record env := Env { e_self : string; e_pkg_imports : list (string * string);
-                    e_locals : list string; e_unique_alias : bool }.
+                    e_locals : list string; e_unique_alias : bool;
+                    e_shadowed : list string }.
+(* e_shadowed: the names bound by the import specs in ImportHandler.shadowed — specs of the file
+   whose path a later spec imports again under another name (calcImports keeps the later one in
+   the map and the earlier ones there); fixed once calcImports has run, read by unusedName *)
+Definition with_shadowed (e : env) (names : list string) : env :=
+  Env (e_self e) (e_pkg_imports e) (e_locals e) (e_unique_alias e) names.
 Fixpoint assoc (l : list (string * string)) (k : string) : option string :=
   match l with
   | [] => None
@@ -321,16 +327,23 @@ Definition calc_import (e : env) (spec : string * option string) : imp :=
 Definition calc_imports (e : env) (specs : list (string * option string)) : table :=
   fold_left (fun t s => tset t (calc_import e s)) specs [].
 
+(* the same loop with ImportHandler.shadowed: the entry a spec overwrites goes there *)
+Definition calc_step (e : env) (st : table * list imp) (spec : string * option string) : table * list imp :=
+  let i := calc_import e spec in
+  (tset (fst st) i,
+   match tget (fst st) (i_path i) with Some prev => (snd st ++ [prev])%list | None => snd st end).
+Definition calc_imports_sh (e : env) (specs : list (string * option string)) : table * list imp :=
+  fold_left (calc_step e) specs ([], []).
+
 (* the name an import spec binds in the file (what the Go compiler sees): the rename, else the
    package name go/packages reports for the path *)
 Definition spec_name (e : env) (spec : string * option string) : string := i_alias (calc_import e spec).
 
 (* what the Go compiler guarantees of the file the handler is built from (a predicate on the
    INPUT): the specs bind pairwise distinct names, none of them a package-level name of the
-   package, `_` or `.`; and (a simplification: Go allows importing one path twice under two
-   names) name pairwise distinct paths *)
+   package, `_` or `.` (one path may be imported several times, under different names) *)
 Definition specs_okb (e : env) (specs : list (string * option string)) : bool :=
-  nodupb (map fst specs) && nodupb (map (spec_name e) specs) &&
+  nodupb (map (spec_name e) specs) &&
   forallb (fun s => negb (mem (spec_name e s) (e_locals e)) &&
                     negb (String.eqb (spec_name e s) "_") && negb (String.eqb (spec_name e s) "."))
           specs.
@@ -339,7 +352,8 @@ Definition specs_okb (e : env) (specs : list (string * option string)) : bool :=
    is not among the taken names (the import names the handler knows and the package-level names).
    The loop `for n := 2; bound(result); n++ { result = name + Itoa(n) }` is number_name over the
    taken names as keys (same fuel argument: IFaceNamesProofs.number_name_fresh) *)
-Definition taken_names (e : env) (st : table) : list string := (map i_alias st ++ e_locals e)%list.
+Definition taken_names (e : env) (st : table) : list string :=
+  (map i_alias st ++ e_shadowed e ++ e_locals e)%list.
 Definition unused_name (taken : list string) (name : string) : string :=
   if mem name taken
   then fst (number_name (S (List.length taken)) (map (fun a => (a, 0%N)) taken) name 2)
@@ -443,11 +457,12 @@ Definition sig_text (name : string) (ins outs : list (string * bool * string)) :
   then name ++ "(" ++ declarations ins ++ ") (" ++ type_names outs ++ ")"
   else name ++ "(" ++ declarations ins ++ ") " ++ type_names outs.
 
+(* a dot-import puts the package's exported names into the file scope: no qualifier (addNamed) *)
 Fixpoint print (x : texpr) : string :=
   match x with
   | ERaw s => s
   | EName q n args =>
-      (match q with Some a => a ++ "." | None => "" end) ++ n ++
+      (match q with Some a => if String.eqb a "." then "" else a ++ "." | None => "" end) ++ n ++
       (match args with [] => "" | _ => "[" ++ join ", " (map print args) ++ "]" end)
   | EPtr y => "*" ++ print y
   | ESlice y => "[]" ++ print y
@@ -724,9 +739,11 @@ Definition to_iface (e : env) (priv emb : bool) := to_iface_gen e priv emb true.
 Definition to_iface_orig (e : env) (priv emb : bool) := to_iface_gen e priv emb false.
 
 (* FindInterface: result methods and the handler's active imports *)
+Definition handler_env (e : env) (specs : list (string * option string)) : env :=
+  with_shadowed e (map i_alias (snd (calc_imports_sh e specs))).
 Definition find_interface (e : env) (specs : list (string * option string)) (priv emb : bool)
            (t : tree) : list rmeth * table :=
-  let '(ms, st) := to_iface e priv emb (calc_imports e specs) t in (ms, active st).
+  let '(ms, st) := to_iface (handler_env e specs) priv emb (calc_imports e specs) t in (ms, active st).
 
 (* ---- names only: the same collection on bare names (what C19_embedded is about) ---- *)
 Section Names.
